@@ -59,7 +59,8 @@ CATALOGUE = [
     {"op": "statistics_prop"},                                             # the cached property of the handle
     {"op": "slice_statistics", "i": 1, "j": 3},                           # ... and of a handle derived from it
 ]
-QUICK_PAIRS = [(0, 3), (3, 0), (2, 3), (3, 2), (7, 3), (3, 7), (8, 3), (10, 3), (11, 12), (12, 11), (14, 13), (13, 12), (15, 16), (16, 15)]
+QUICK_PAIRS = [(0, 3), (3, 0), (2, 3), (3, 2), (7, 3), (3, 7), (8, 3), (10, 3), (11, 12), (12, 11), (14, 13), (13, 12), (15, 16), (16, 15),
+               (0, 10), (10, 1)]   # reads of one handle with different `categories=` / `columns=` selections
 SYM_DELTAS = [0, 1, 2, 3, 5]
 CHUNK = 150
 MAX_STEPS = 6000
